@@ -114,6 +114,27 @@ Theorem c19_moasha_stops_at_max :
 Proof. exact moasha_max_t. Qed.
 Print Assumptions c19_moasha_stops_at_max.
 
+(* A trial that COMPLETES is recorded too: on_trial_complete hands the final result to the bracket by the same
+   rule (first rung, highest first, whose milestone is reached and that does not hold the trial; every other
+   rung untouched; no rung applicable -> nothing changes), for every priority function and reduction factor --
+   so "all trials recorded at that rung" includes the trials that finished on their own. *)
+Theorem c19_moasha_complete_records :
+  forall prio rf t it m b,
+  (forallb (fun r => negb (applicable t it r)) b = true /\ moasha_on_trial_complete prio rf b t it m = b)
+  \/
+  (exists pre r post, b = pre ++ r :: post /\
+     forallb (fun r => negb (applicable t it r)) pre = true /\ applicable t it r = true /\
+     moasha_on_trial_complete prio rf b t it m = pre ++ rung_add r t m :: post).
+Proof. exact moasha_complete_spec. Qed.
+Print Assumptions c19_moasha_complete_records.
+
+(* ... and below max_t it leaves the bracket exactly as a report with the same content would *)
+Theorem c19_moasha_complete_as_report :
+  forall prio rf max_t t it m b, ~ max_t <= it ->
+    moasha_on_trial_complete prio rf b t it m = fst (moasha_on_trial_result prio rf max_t b t it m).
+Proof. exact moasha_complete_same_as_report. Qed.
+Print Assumptions c19_moasha_complete_as_report.
+
 Theorem c19_moasha_enters_once :
   forall prio rf t it m b,
     Forall rung_nodup b -> Forall rung_nodup (fst (bracket_on_result prio rf b t it m)).
